@@ -1379,7 +1379,7 @@ impl<'a> CompilerState<'a> {
                                                             Rule::ptr_low => {
                                                                 let val = self.parse_calc(x.into_inner().next().unwrap().into_inner())?;
                                                                 if val == 255 {
-                                                                    VariableValue::LowPtr((id_name, sign * offset))
+                                                                    VariableValue::LowPtr((id_name, offset.checked_mul(sign).ok_or_else(|| self.syntax_error("Constant overflow", start))?))
                                                                 } else {
                                                                     return Err(self.syntax_error(&format!("Incorrect suffix to reference {}", id_name), start))
                                                                 }
@@ -1387,14 +1387,14 @@ impl<'a> CompilerState<'a> {
                                                             Rule::ptr_hi => {
                                                                 let val = self.parse_calc(x.into_inner().next().unwrap().into_inner())?;
                                                                 if val == 8 {
-                                                                    VariableValue::HiPtr((id_name, sign * offset))
+                                                                    VariableValue::HiPtr((id_name, offset.checked_mul(sign).ok_or_else(|| self.syntax_error("Constant overflow", start))?))
                                                                 } else {
                                                                     return Err(self.syntax_error(&format!("Incorrect suffix to reference {}", id_name), start))
                                                                 }
                                                             },
                                                             _ => return Err(self.syntax_error(&format!("Incorrect suffix to reference {}", id_name), start))
                                                         },
-                                                        None => VariableValue::LowPtr((id_name, sign * offset)),
+                                                        None => VariableValue::LowPtr((id_name, offset.checked_mul(sign).ok_or_else(|| self.syntax_error("Constant overflow", start))?)),
                                                     }
                                                     }
                                                     _ => {
@@ -1481,7 +1481,7 @@ impl<'a> CompilerState<'a> {
                                                                             Rule::ptr_low => {
                                                                                 let val = self.parse_calc(x.into_inner().next().unwrap().into_inner())?;
                                                                                 if val == 255 {
-                                                                                    v.push(VariableValue::LowPtr((id_name, sign * offset)))
+                                                                                    v.push(VariableValue::LowPtr((id_name, offset.checked_mul(sign).ok_or_else(|| self.syntax_error("Constant overflow", start))?)))
                                                                                 } else {
                                                                                     return Err(self.syntax_error(&format!("Incorrect suffix to reference {}", id_name), start))
                                                                                 }
@@ -1489,14 +1489,14 @@ impl<'a> CompilerState<'a> {
                                                                             Rule::ptr_hi => {
                                                                                 let val = self.parse_calc(x.into_inner().next().unwrap().into_inner())?;
                                                                                 if val == 8 {
-                                                                                    v.push(VariableValue::HiPtr((id_name, sign * offset)))
+                                                                                    v.push(VariableValue::HiPtr((id_name, offset.checked_mul(sign).ok_or_else(|| self.syntax_error("Constant overflow", start))?)))
                                                                                 } else {
                                                                                     return Err(self.syntax_error(&format!("Incorrect suffix to reference {}", id_name), start))
                                                                                 }
                                                                             },
                                                                             _ => return Err(self.syntax_error(&format!("Incorrect suffix to reference {}", id_name), start))
                                                                         },
-                                                                        None => v.push(VariableValue::LowPtr((id_name, sign * offset))),
+                                                                        None => v.push(VariableValue::LowPtr((id_name, offset.checked_mul(sign).ok_or_else(|| self.syntax_error("Constant overflow", start))?))),
                                                                     }
                                                                 },
                                                                 _ => return Err(self.syntax_error(&format!("Incorrect suffix to reference {}", id_name), start))
@@ -1541,7 +1541,7 @@ impl<'a> CompilerState<'a> {
                                                             Some(x) => match x.as_rule() {
                                                                 Rule::ptr_offset => {
                                                                     let sign = if x.as_str().starts_with("-") { -1 } else { 1 };
-                                                                    sign * self.parse_int(x.into_inner().next().unwrap().into_inner().next().unwrap())?
+                                                                    self.parse_int(x.into_inner().next().unwrap().into_inner().next().unwrap())?.checked_mul(sign).ok_or_else(|| self.syntax_error("Constant overflow", start))?
                                                                 },
                                                                 _ => return Err(self.syntax_error(&format!("Incorrect suffix to reference {}", s), start))
                                                             },
